@@ -186,7 +186,6 @@ Section Radau.
               let qnewt := fmax O (L L1em4) (fmin O (L L20) dyth) in
               let exponent := neg O (one O) / (L L4 + remaining) in
               let hhfac := L L0_8 * pow O qnewt exponent in
-              (* leaves the loop BEFORE f += z and z = T f: z holds the raw increments *)
               inr (mkN z1 z2 z3 (n_f1 ns) (n_f2 ns) (n_f3 ns) iter faccon theta (n_dynold ns) thq calls,
                    NStepCut hhfac)
             else finish_pass faccon theta thq
@@ -254,13 +253,15 @@ Section Radau.
                            jac e1 e2 st log jl (s_cb s) in
             match ex with
             | NFail => halve s_n st log jl jac e1 e2 true
-            | _ =>
-                (* after a Newton step cut the error estimate is computed with the NEW h *)
-                let '(h, hhfac, last, st) :=
-                  match ex with
-                  | NStepCut hf => (h * hf, hf, false, add_rej st)
-                  | _ => (h, s_hhfac s, s_last s, st)
-                  end in
+            | NStepCut hf =>
+                (* predicted slow convergence: the step is restarted with h * hf and a new decomposition (fix 8bc1cdd;
+                   the pinned tree fell through to the error estimate with the raw increments and the new h: F29) *)
+                inl (mkS x y (h * hf) (s_hold s) hf false true (s_hacc s) (s_erracc s)
+                         (n_faccon ns) (n_theta ns) (n_dynold ns) (n_thqold ns) (s_first s)
+                         (s_calljac s) true (s_sing s) (s_f0 s) (s_scal s) (s_cont s)
+                         jac e1 e2 (add_rej st) log jl (s_cb s))
+            | NConverged =>
+                let '(h, hhfac, last, st) := (h, s_hhfac s, s_last s, st) in
                 let hee1 := L DD1 / h in let hee2 := L DD2 / h in let hee3 := L DD3 / h in
                 let e1v := map3 (fun a b c => hee1 * a + hee2 * b + hee3 * c) (n_z1 ns) (n_z2 ns) (n_z3 ns) in
                 let mf := mat_vec n mass e1v in
